@@ -2,4 +2,7 @@
 
 package all
 
-import _ "verif/harness/internal/props/c16"
+import (
+	_ "verif/harness/internal/props/c16"
+	_ "verif/harness/internal/props/c16/proxy"
+)
